@@ -45,6 +45,9 @@ type PubSpec struct {
 type Scenario struct {
 	Subs []SubSpec
 	Pubs []PubSpec
+	// Bounce: after the subscriptions are in place node [0] alone sees node [1] fail and rejoin (new session,
+	// full resynchronisation) - routing afterwards must be what it was
+	Bounce [][2]int `json:",omitempty"`
 }
 
 var scenarioSeq int64
@@ -78,6 +81,12 @@ func gen(rng *rand.Rand, npub int) Scenario {
 			p.Retain, p.Clear = true, true
 		}
 		sc.Pubs = append(sc.Pubs, p)
+	}
+	if rng.Intn(3) == 0 {
+		for k := 0; k < 1+rng.Intn(2); k++ {
+			a := rng.Intn(3)
+			sc.Bounce = append(sc.Bounce, [2]int{a, (a + 1 + rng.Intn(2)) % 3})
+		}
 	}
 	return sc
 }
@@ -224,8 +233,16 @@ func run(t *triple, sc *Scenario) (fs []finding, obs map[string]int, rerr error)
 			return nil, nil, err
 		}
 	}
+	for _, bn := range sc.Bounce {
+		if !stable() {
+			break
+		}
+		if nodes[bn[0]].F.VerifBouncePeer(names[bn[1]]) {
+			obs["one_sided_bounces"]++
+		}
+	}
 	if !stable() {
-		add("views.not_converged", "federation views did not converge after the subscriptions were made")
+		add(fmt.Sprintf("views.not_converged:after_bounce=%v", len(sc.Bounce) > 0), "federation views did not converge after the subscriptions were made")
 		return fs, obs, nil
 	}
 	pubs := make([]*wire.Client, 3)
